@@ -302,16 +302,25 @@ def run_base_capa(
     opt_anomaly_starts = np.repeat(np.nan, n)
     starts = np.array([], dtype=int)
 
-    ts = np.arange(min_segment_length - 1, n)
-    for t in ts:
-        # Collective anomalies
+    for t in range(n):
         t_array = np.array([t])
-        starts = np.concatenate((starts, t_array - min_segment_length + 1))
-        ends = np.repeat(t + 1, len(starts))
-        collective_savings = collective_saving.evaluate(np.column_stack((starts, ends)))
-        opt_collective_saving, opt_start, candidate_savings = optimise_savings(
-            starts, opt_savings, collective_savings, collective_alpha, collective_betas
-        )
+        # Collective anomalies can only end at t >= min_segment_length - 1.
+        collective_possible = t >= min_segment_length - 1
+        if collective_possible:
+            starts = np.concatenate((starts, t_array - min_segment_length + 1))
+            ends = np.repeat(t + 1, len(starts))
+            collective_savings = collective_saving.evaluate(
+                np.column_stack((starts, ends))
+            )
+            opt_collective_saving, opt_start, candidate_savings = optimise_savings(
+                starts,
+                opt_savings,
+                collective_savings,
+                collective_alpha,
+                collective_betas,
+            )
+        else:
+            opt_collective_saving = -np.inf
 
         # Point anomalies
         point_savings = point_saving.evaluate(np.column_stack((t_array, t_array + 1)))
@@ -327,6 +336,9 @@ def run_base_capa(
             opt_anomaly_starts[t] = opt_start
         elif argmax == 2:
             opt_anomaly_starts[t] = t
+
+        if not collective_possible:
+            continue
 
         # Pruning the admissible starts
         penalty_sum = collective_alpha + collective_betas.sum()
